@@ -175,6 +175,71 @@ def extract_syntax():
             bool_words = re.findall(r'"([^"]+)"', m.group(1))
             if sorted(bool_words) != ["false", "true"]:
                 errs.append("grammar.pest boolean words: " + str(bool_words))
+    # --- program-level rules the token-level parser model depends on (shape recorded, compared by Props/C09)
+    prog_rules = ["problem", "objective", "solve", "constraint_list", "constraint", "constraint_name", "consts_declaration",
+                  "const_declaration", "domains_declaration", "domain_declaration", "domain_variables", "as_assertion",
+                  "as_value", "as_type", "for_iteration", "iteration_declaration_list", "iteration_declaration", "tuple",
+                  "iterator", "range_iterator", "block_function", "block_scoped_function", "array_access",
+                  "pointer_access_list", "pointer_access", "array", "comma_separated_exp", "compound_variable",
+                  "compound_variable_body", "underscore_literal", "escaped_compound_variable", "objective_type",
+                  "comparison", "range_type", "no_par", "string", "nl"]
+    for name in prog_rules:
+        mod, body = pest_rule(g, name)
+        if body is None:
+            errs.append("grammar.pest rule " + name)
+        else:
+            shapes[name] = (mod, body)
+    # --- `FromStr` / `Display` / `exact_arity` of the block function kinds, the variable types, the objective kinds
+    def from_str_arms(text, ty):
+        m = re.search(r"impl FromStr for " + ty + r" \{.*?match s \{(.*?)\n\s*_ => Err", text, re.S)
+        if not m:
+            errs.append("FromStr for " + ty)
+            return []
+        arms = []
+        for spellings, variant in re.findall(r'((?:"[^"]+"\s*\|?\s*)+)=>\s*Ok\(\s*(?:Self|' + ty + r')::(\w+)', m.group(1)):
+            for sp in re.findall(r'"([^"]+)"', spellings):
+                arms.append((sp, variant))
+        if not arms:
+            errs.append("FromStr arms of " + ty)
+        return arms
+    def display_arms(text, ty):
+        m = re.search(r"impl fmt::Display for " + ty + r" \{(.*?)\n\}", text, re.S)
+        if not m:
+            errs.append("Display for " + ty)
+            return {}
+        return dict(re.findall(r'Self::(\w+)\s*=>\s*"([^"]+)"', m.group(1)))
+    bf = open(os.path.join(SRC, "parser/il/block_functions.rs")).read()
+    kinds = {}
+    for ty in ["BlockFunctionKind", "BlockScopedFunctionKind"]:
+        arms, disp = from_str_arms(bf, ty), display_arms(bf, ty)
+        rows = []
+        for sp, variant in arms:
+            if variant not in disp:
+                errs.append(f"Display arm of {ty}::{variant}")
+            else:
+                rows.append((sp, disp[variant]))
+        kinds[ty] = rows
+    arity = []
+    m = re.search(r"pub fn exact_arity\(&self\) -> Option<usize> \{\s*match self \{(.*?)\n\s*\}\s*\}", bf, re.S)
+    if not m:
+        errs.append("BlockFunctionKind::exact_arity")
+    else:
+        disp = display_arms(bf, "BlockFunctionKind")
+        for variants, val in re.findall(r"((?:Self::\w+\s*\|?\s*)+)=>\s*(Some\(\d+\)|None)", m.group(1)):
+            for v in re.findall(r"Self::(\w+)", variants):
+                if val != "None":
+                    arity.append((disp.get(v, v), int(re.search(r"\d+", val).group(0))))
+        if set(v for vs, _ in re.findall(r"((?:Self::\w+\s*\|?\s*)+)=>\s*(Some\(\d+\)|None)", m.group(1))
+               for v in re.findall(r"Self::(\w+)", vs)) != set(disp):
+            errs.append("BlockFunctionKind::exact_arity does not cover every kind")
+    me = open(os.path.join(SRC, "math/math_enums.rs")).read()
+    type_names = [sp for sp, _ in from_str_arms(me, "PreVariableType")]
+    obj_kinds = from_str_arms(me, "OptimizationType")
+    cmp_arms = from_str_arms(me, "Comparison")
+    op = open(os.path.join(SRC, "parser/rules_parser/other_parser.rs")).read()
+    arg_types = re.findall(r'^\s*"(\w+)" => (?:\{|return Ok\(PreVariableType::)', op[op.index("pub fn parse_as_assertion_type"):op.index("pub fn parse_variable(")], re.M)
+    if sorted(arg_types) != ["IntegerRange", "NonNegativeReal", "Real"]:
+        errs.append("parse_as_assertion_type: type names with arguments " + str(arg_types))
     if errs:
         print("extractor could not re-read: " + "; ".join(errs))
         return 1
@@ -205,8 +270,56 @@ def extract_syntax():
     t += "/-- rule bodies whose shape the token-level model depends on: (rule, modifier, whitespace-normalised body) -/\n"
     t += "def ruleShapes : List (String × String × String) :=\n  [" + ",\n   ".join(
         f"({lstr(n)}, {lstr(shapes[n][0])}, {lstr(shapes[n][1])})" for n in shapes) + "]\n"
+    t += "/-- `FromStr for BlockFunctionKind`: (spelling, `Display` of the kind) -/\n"
+    t += "def blockKinds : List (String × String) := [" + ", ".join(f"({lstr(a)}, {lstr(b)})" for a, b in kinds["BlockFunctionKind"]) + "]\n"
+    t += "/-- `FromStr for BlockScopedFunctionKind`: (spelling, `Display` of the kind) -/\n"
+    t += "def scopedKinds : List (String × String) := [" + ", ".join(f"({lstr(a)}, {lstr(b)})" for a, b in kinds["BlockScopedFunctionKind"]) + "]\n"
+    t += "/-- `BlockFunctionKind::exact_arity` where it is `Some`: (`Display` of the kind, arity) -/\n"
+    t += "def blockArity : List (String × Nat) := [" + ", ".join(f"({lstr(a)}, {b})" for a, b in arity) + "]\n"
+    t += "/-- `FromStr for PreVariableType`: the type names that stand without arguments -/\n"
+    t += "def plainTypeNames : List String := [" + ", ".join(lstr(a) for a in type_names) + "]\n"
+    t += "/-- `parse_as_assertion_type`: the type names that take `(min, max)` -/\n"
+    t += "def argTypeNames : List String := [" + ", ".join(lstr(a) for a in arg_types) + "]\n"
+    t += "/-- `FromStr for OptimizationType`: (spelling, variant) -/\n"
+    t += "def objectiveKinds : List (String × String) := [" + ", ".join(f"({lstr(a)}, {lstr(b)})" for a, b in obj_kinds) + "]\n"
+    t += "/-- `FromStr for Comparison`: (spelling, variant) -/\n"
+    t += "def comparisonKinds : List (String × String) := [" + ", ".join(f"({lstr(a)}, {lstr(b)})" for a, b in cmp_arms) + "]\n"
     t += "end Rooc.Gen\n"
     write_if_changed(os.path.join(GEN, "Grammar.lean"), t)
+    return 0
+
+# ---------------------------------------------------------------------------------------------
+# C16: typing table of the built-in pipes (pipe/pipe_executors.rs) and the builder's family-name format  [agent-refproof]
+# ---------------------------------------------------------------------------------------------
+def extract_pipes():
+    src = open(os.path.join(SRC, "pipe/pipe_executors.rs")).read()
+    as_to_ty = {"as_string_data": "String", "as_parser": "Parser", "as_pre_model": "PreModel", "as_model": "Model",
+                "as_linear_model": "LinearModel", "as_standard_linear_model": "StandardLinearModel", "as_tableau": "Tableau"}
+    rows = []
+    blocks = re.split(r"(?=impl Pipeable for \w+ \{)", src)[1:]
+    for b in blocks:
+        name = re.match(r"impl Pipeable for (\w+) \{", b).group(1)
+        body = b.split("\n//--------------------")[0]
+        m_in = re.search(r"data\.(as_\w+)\(\)\?", body)
+        outs = set(re.findall(r"Ok\(PipeableData::(\w+)\(", body))
+        errs = set(re.findall(r"PipeError::(\w+)", body)) - {"InvalidData"}
+        if not m_in or m_in.group(1) not in as_to_ty or len(outs) > 1 or len(errs) > 1:
+            print(f"extractor could not re-read: pipe {name} (input {m_in and m_in.group(1)}, outputs {outs}, errors {errs})")
+            return 1
+        rows.append((name, as_to_ty[m_in.group(1)], next(iter(outs), ""), next(iter(errs), "-")))
+    mb = open(os.path.join(SRC, "builder/model.rs")).read()
+    fam = re.search(r'self\.add_var\(format!\("([^"]*)"\), var_type\)', mb)
+    if not fam or not rows:
+        print("extractor could not re-read: add_vars family-name format / pipe executors")
+        return 1
+    t = "/- GENERATED by tools/extract.py from pipe/pipe_executors.rs and builder/model.rs — do not edit. -/\nnamespace Rooc.Gen\n"
+    t += "/-- (pipe struct, variant it reads with `as_X()?`, variant it produces (\"\" = none), its `PipeError` variant (\"-\" = cannot fail)) -/\n"
+    t += "def pipeTable : List (String × String × String × String) :=\n  [" + ",\n   ".join(
+        f"({lstr(a)}, {lstr(b)}, {lstr(c)}, {lstr(d)})" for a, b, c, d in rows) + "]\n"
+    t += "/-- the `format!` string of `ModelBuilder::add_vars` member names -/\n"
+    t += f"def familyNameFormat : String := {lstr(fam.group(1))}\n"
+    t += "end Rooc.Gen\n"
+    write_if_changed(os.path.join(GEN, "PipeTable.lean"), t)
     return 0
 
 def extract_pre():
@@ -378,6 +491,9 @@ def main():
     t += "end Rooc.Gen\n"
     write_if_changed(os.path.join(GEN, "Consts.lean"), t)
     rc = extract_syntax()
+    if rc:
+        return rc
+    rc = extract_pipes()
     if rc:
         return rc
     rc = extract_pre()
